@@ -367,49 +367,51 @@ pub fn check_system(sys: &Sys, objs: &[Vec<f64>]) -> CaseOut {
 pub fn grid(tier: Tier) -> Vec<(Sys, usize)> {
     let mut v = vec![];
     let bias = [-1.0, 0.0, 1.0, 2.0];
+    let c3 = [0.0, 1.0, -1.0];
+    let c5 = [0.0, 1.0, -1.0, 2.0, -2.0];
+    for m in 1..=4 {
+        for s in systems(1, m, &[0.0, 1.0, -1.0, 2.0], &bias) {
+            v.push((s, 0));
+        }
+    }
+    for m in 1..=3 {
+        for s in systems(2, m, &c3, &bias) {
+            v.push((s, 1));
+        }
+    }
+    for s in systems(2, 2, &c5, &bias) {
+        v.push((s, 1));
+    }
+    for s in systems(3, 2, &c3, &[-1.0, 0.0, 1.0]) {
+        v.push((s, 2));
+    }
     match tier {
         Tier::Quick => {
-            for m in 1..=3 {
-                for s in systems(1, m, &[0.0, 1.0, -1.0, 2.0], &bias) {
-                    v.push((s, 0));
-                }
-            }
-            for m in 1..=2 {
-                for s in systems(2, m, &[0.0, 1.0, -1.0], &bias) {
-                    v.push((s, 1));
-                }
-            }
-            // three rows in 2-D: first row fixed up to symmetry-free thinning (every 2nd system)
-            for (i, s) in systems(2, 3, &[0.0, 1.0, -1.0], &[-1.0, 0.0, 1.0]).into_iter().enumerate() {
-                if i % 2 == 0 {
-                    v.push((s, 1));
-                }
-            }
-        }
-        Tier::Thorough => {
-            for m in 1..=4 {
-                for s in systems(1, m, &[0.0, 1.0, -1.0, 2.0], &bias) {
-                    v.push((s, 0));
-                }
-            }
-            for m in 1..=3 {
-                for s in systems(2, m, &[0.0, 1.0, -1.0], &bias) {
-                    v.push((s, 1));
-                }
-            }
-            for s in systems(2, 2, &[0.0, 1.0, -1.0, 2.0, -2.0], &bias) {
-                v.push((s, 1));
-            }
-            for (i, s) in systems(2, 4, &[0.0, 1.0, -1.0], &[0.0, 1.0]).into_iter().enumerate() {
+            for (i, s) in systems(2, 4, &c3, &[0.0, 1.0]).into_iter().enumerate() {
                 if i % 5 == 0 {
                     v.push((s, 1));
                 }
             }
-            for s in systems(3, 2, &[0.0, 1.0, -1.0], &[-1.0, 0.0, 1.0]) {
+            for (i, s) in systems(3, 3, &c3, &[0.0, 1.0]).into_iter().enumerate() {
+                if i % 7 == 0 {
+                    v.push((s, 2));
+                }
+            }
+        }
+        Tier::Thorough => {
+            for s in systems(2, 4, &c3, &[0.0, 1.0]) {
+                v.push((s, 1));
+            }
+            for (i, s) in systems(2, 3, &c5, &[-1.0, 0.0, 1.0]).into_iter().enumerate() {
+                if i % 3 == 0 {
+                    v.push((s, 1));
+                }
+            }
+            for s in systems(3, 3, &c3, &[0.0, 1.0]) {
                 v.push((s, 2));
             }
-            for (i, s) in systems(3, 3, &[0.0, 1.0, -1.0], &[0.0, 1.0]).into_iter().enumerate() {
-                if i % 7 == 0 {
+            for (i, s) in systems(3, 4, &c3, &[0.0, 1.0]).into_iter().enumerate() {
+                if i % 97 == 0 {
                     v.push((s, 2));
                 }
             }
@@ -432,8 +434,8 @@ pub fn run(tier: Tier) -> Report {
     rep.set("distinct_nontrivial", nt);
     rep.set("rule", "every ordered list of m rows over the coefficient and bias alphabets (row order not canonicalised: the solver is order-sensitive) x every objective in {0,+-1}^n; status, is_feasible, solve_linprog per objective and the Chebyshev programme are each one evaluation; a system is non-trivial if at least one row has a non-zero coefficient; distinct because the enumeration never repeats a row list");
     rep.set("bound", match tier {
-        Tier::Quick => "n=1: m<=3 rows over {0,+-1,2} x {-1,0,1,2}; n=2: m<=2 rows over {0,+-1} x {-1,0,1,2}, every 2nd system with m=3 over biases {-1,0,1}",
-        Tier::Thorough => "n=1: m<=4; n=2: m<=3 over {0,+-1}, m=2 over {0,+-1,+-2}, every 5th system with m=4; n=3: m=2, every 7th system with m=3",
+        Tier::Quick => "n=1: m<=4 rows over {0,+-1,2} x {-1,0,1,2}; n=2: m<=3 over {0,+-1} x {-1,0,1,2}, m=2 over {0,+-1,+-2}, every 5th system with m=4; n=3: m=2, every 7th system with m=3",
+        Tier::Thorough => "quick grid plus n=2: all systems with m=4 over {0,+-1} x {0,1}, every 3rd with m=3 over {0,+-1,+-2}; n=3: all with m=3, every 97th with m=4",
     });
     rep.assume("three-valued oracle: 'infeasible' is wrong only for fat sets (margin 1e-6), 'feasible' only for robustly empty ones; witnesses within 1e-8; optimal values within 1e-7; Chebyshev radius within a rational bracket of the irrational norms");
     rep
